@@ -10,7 +10,7 @@ LEVEL = 'fault_enumeration'
 SHARDS = {'quick': 8, 'thorough': 16}
 RULE = ('(a) Hypothesis generates a sequential program (<= 6 steps, handlers/resolvers/capture subsets/static/property/'
         'class-level) and recording parameters; the harness then enumerates EVERY single placement of every applicable '
-        'tolerated fault at every step (key cannot be built, input/output data handler raises, unserialisable value / '
+        'tolerated fault at every step (array-like value or argument whose comparisons have no truth value, key cannot be built, input/output data handler raises, unserialisable value / '
         'output argument (save and copy-on-interception fail), metadata extractor raises or returns junk, cassette save '
         'raises, discard / forced sampling / ordinary exception / interrupt from the operation or from inside an '
         'intercepted body) plus a seeded sample of fault pairs (all pairs for programs <= 3 steps in the thorough tier), '
@@ -31,7 +31,7 @@ PARAMS = [None, None, {'sampling_rate': 0}, {'sampling_rate': 1}, {'copy_data_on
 
 
 def same(a, b):
-    return a == b and type(a) is type(b)
+    return V.deep_same(a, b)
 
 
 def compare(fr, case):
@@ -102,7 +102,7 @@ def nontrivial(prog, faults):
 def enumerate_case(ctx, base):
     """base = {'prog', 'params', 'pair_seed'}; raises Violation carrying the concrete failing sub-case."""
     prog = base['prog']
-    faults = FR.applicable_faults(prog)
+    faults = FR.applicable_faults(prog, extra=('vector',))
     placements = [[]] + [[f] for f in faults]
     rnd = random.Random(base['pair_seed'])
     pairs = [[a, b] for i, a in enumerate(faults) for b in faults[i + 1:] if FR.compatible(a, b)]
